@@ -1,6 +1,8 @@
 import Hive.Proofs.KVRefine
 import Hive.Proofs.KVCopy
 import Hive.Proofs.KVTrace
+import Hive.Gen.C04_Calls
+import Hive.Gen.C04_Skel
 /-!
 # C04 — KVStore views and wrappers obey one ordered-map contract
 
@@ -375,6 +377,130 @@ example : trMut (some (.set, [[1], [2]])) (.set [1] [2]) true [.flush, .debug 17
     [.cb 17 .set [[1], [2]], .call (.set [1] [2]), .call .flush, .call .flush] ∧
     trFwd (some (.get, [[1]])) (.get [1]) [.flush, .debug 17 true, .flush, .debug 255 false] = [.call (.get [1])] := by
   decide
+
+/-! ## regenerated facts about the source (`Hive/Gen/C04_Calls.lean`, `Hive/Gen/C04_Skel.lean`)
+
+Both modules are regenerated from the working tree on every run of the check (`checks/c04.py`, `harness/c04/gen`,
+`harness/tools/extract-sync`).  The theorems below state what the Lean model was written against; a change of any
+anchored function that alters which calls it makes, their order or their arguments (a dropped `Flush`, a forgotten
+realm, a skipped copy, another command constant, swapped arguments), or of the listed types, breaks an obligation
+even when no generated history notices. -/
+
+section Regenerated
+open Hive.Gen.C04Calls Hive.Gen.C04Skel
+
+/-- `kvstore/mapdb`: every method loads the shared `closed` flag first (except `Realm`, `Close`, the batch's `Set`/`Delete`/`Cancel`), builds the
+full key as `ConcatBytes(s.realm, key)` (prefix: `s.realm ‖ prefix`, `Clear`: `s.realm` alone), copies values with `ConcatBytes` on `set`,
+`get` and in the iteration snapshot, sorts with `utils.SortSlice(keys, dirs...)` after releasing the map lock and hands the consumer
+`key[len(realm):]`; `Commit` applies `set` for every set operation, then `delete` for every delete operation. -/
+theorem C04_calls_mapdb :
+    calls_mapdb_NewMapDB = [] ∧
+    calls_mapdb_mapDB_WithRealm = ["s.closed.Load()"] ∧
+    calls_mapdb_mapDB_WithExtendedRealm = ["s.WithRealm(byteutils.ConcatBytes(s.Realm(),$0))", "byteutils.ConcatBytes(s.Realm(),$0)", "s.Realm()"] ∧
+    calls_mapdb_mapDB_Realm = ["byteutils.ConcatBytes(s.realm)"] ∧
+    calls_mapdb_mapDB_Iterate = ["s.closed.Load()", "s.m.iterate(s.realm,$0,$1,$2...)"] ∧
+    calls_mapdb_mapDB_IterateKeys = ["s.closed.Load()", "s.m.iterateKeys(s.realm,$0,$1,$2...)"] ∧
+    calls_mapdb_mapDB_Clear = ["s.closed.Load()", "s.Lock()", "s.Unlock()", "s.m.deletePrefix(s.realm)"] ∧
+    calls_mapdb_mapDB_Get = ["s.closed.Load()", "s.RLock()", "s.RUnlock()", "s.m.get(byteutils.ConcatBytes(s.realm,$0))", "byteutils.ConcatBytes(s.realm,$0)"] ∧
+    calls_mapdb_mapDB_Set = ["s.closed.Load()", "s.Lock()", "s.Unlock()", "s.set($0,$1)"] ∧
+    calls_mapdb_mapDB_set = ["s.m.set(byteutils.ConcatBytes(s.realm,$0),$1)", "byteutils.ConcatBytes(s.realm,$0)"] ∧
+    calls_mapdb_mapDB_Has = ["s.closed.Load()", "s.RLock()", "s.RUnlock()", "s.m.has(byteutils.ConcatBytes(s.realm,$0))", "byteutils.ConcatBytes(s.realm,$0)"] ∧
+    calls_mapdb_mapDB_Delete = ["s.closed.Load()", "s.Lock()", "s.Unlock()", "s.delete($0)"] ∧
+    calls_mapdb_mapDB_delete = ["s.m.delete(byteutils.ConcatBytes(s.realm,$0))", "byteutils.ConcatBytes(s.realm,$0)"] ∧
+    calls_mapdb_mapDB_DeletePrefix = ["s.closed.Load()", "s.Lock()", "s.Unlock()", "s.m.deletePrefix(byteutils.ConcatBytes(s.realm,$0))", "byteutils.ConcatBytes(s.realm,$0)"] ∧
+    calls_mapdb_mapDB_Flush = ["s.closed.Load()"] ∧
+    calls_mapdb_mapDB_Close = ["s.closed.Swap(true)"] ∧
+    calls_mapdb_mapDB_Batched = ["s.closed.Load()"] ∧
+    calls_mapdb_batchedMutations_Set = ["byteutils.ConcatBytesToString($0)", "b.Lock()", "b.Unlock()", "delete(b.deleteOperations,stringKey)"] ∧
+    calls_mapdb_batchedMutations_Delete = ["byteutils.ConcatBytesToString($0)", "b.Lock()", "b.Unlock()", "delete(b.setOperations,stringKey)"] ∧
+    calls_mapdb_batchedMutations_Cancel = ["b.Lock()", "b.Unlock()"] ∧
+    calls_mapdb_batchedMutations_Commit = ["b.closed.Load()", "b.Lock()", "b.kvStore.Lock()", "b.kvStore.Unlock()", "b.Unlock()", "b.kvStore.set([]byte(key),value)", "b.kvStore.delete([]byte(key))"] ∧
+    calls_mapdb_syncedKVMap_has = ["s.RLock()", "s.RUnlock()"] ∧
+    calls_mapdb_syncedKVMap_get = ["s.RLock()", "s.RUnlock()", "byteutils.ConcatBytes(value)"] ∧
+    calls_mapdb_syncedKVMap_set = ["s.Lock()", "s.Unlock()", "byteutils.ConcatBytes($1)"] ∧
+    calls_mapdb_syncedKVMap_delete = ["s.Lock()", "s.Unlock()", "delete(s.m,string($0))"] ∧
+    calls_mapdb_syncedKVMap_deletePrefix = ["s.Lock()", "s.Unlock()", "strings.HasPrefix(key,prefix)", "delete(s.m,key)"] ∧
+    calls_mapdb_syncedKVMap_iterate = ["s.RLock()", "byteutils.ConcatBytesToString($0,$1)", "strings.HasPrefix(key,prefix)", "byteutils.ConcatBytes(value)", "s.RUnlock()", "utils.SortSlice(keysSlice,$3...)", "$2([]byte(key)[len($0):],copiedElements[key])"] ∧
+    calls_mapdb_syncedKVMap_iterateKeys = ["s.RLock()", "byteutils.ConcatBytesToString($0,$1)", "strings.HasPrefix(key,prefix)", "s.RUnlock()", "utils.SortSlice(keysSlice,$3...)", "$2([]byte(key)[len($0):])"] := by
+  refine ⟨rfl, rfl, rfl, rfl, rfl, rfl, rfl, rfl, rfl, rfl, rfl, rfl, rfl, rfl, rfl, rfl, rfl, rfl, rfl, rfl, rfl, rfl, rfl, rfl, rfl, rfl, rfl, rfl⟩
+
+/-- `kvstore/flushkv`: every method forwards to `s.store` with the caller's arguments; exactly `Clear`, `Set`, `Delete`, `DeletePrefix` and the
+batch's `Commit` are followed by `flushAfterMutation` (= `store.Flush()`, ErrStoreClosed not reported); `WithExtendedRealm` =
+`s.WithRealm(ConcatBytes(s.Realm(), realm))`.  This is the table `trFwd` / `trMut` of `Hive/Model/KVTrace.lean` were written against. -/
+theorem C04_calls_flushkv :
+    calls_flushkv_flushAfterMutation = ["$0.Flush()", "ierrors.Is(err,kvstore.ErrStoreClosed)"] ∧
+    calls_flushkv_New = [] ∧
+    calls_flushkv_flushKVStore_WithRealm = ["s.store.WithRealm($0)"] ∧
+    calls_flushkv_flushKVStore_WithExtendedRealm = ["s.WithRealm(byteutils.ConcatBytes(s.Realm(),$0))", "byteutils.ConcatBytes(s.Realm(),$0)", "s.Realm()"] ∧
+    calls_flushkv_flushKVStore_Realm = ["s.store.Realm()"] ∧
+    calls_flushkv_flushKVStore_Iterate = ["s.store.Iterate($0,$1,$2...)"] ∧
+    calls_flushkv_flushKVStore_IterateKeys = ["s.store.IterateKeys($0,$1,$2...)"] ∧
+    calls_flushkv_flushKVStore_Clear = ["s.store.Clear()", "flushAfterMutation(s.store)"] ∧
+    calls_flushkv_flushKVStore_Get = ["s.store.Get($0)"] ∧
+    calls_flushkv_flushKVStore_Set = ["s.store.Set($0,$1)", "flushAfterMutation(s.store)"] ∧
+    calls_flushkv_flushKVStore_Has = ["s.store.Has($0)"] ∧
+    calls_flushkv_flushKVStore_Delete = ["s.store.Delete($0)", "flushAfterMutation(s.store)"] ∧
+    calls_flushkv_flushKVStore_DeletePrefix = ["s.store.DeletePrefix($0)", "flushAfterMutation(s.store)"] ∧
+    calls_flushkv_flushKVStore_Flush = ["s.store.Flush()"] ∧
+    calls_flushkv_flushKVStore_Close = ["s.store.Close()"] ∧
+    calls_flushkv_flushKVStore_Batched = ["s.store.Batched()"] ∧
+    calls_flushkv_batchedMutations_Set = ["b.batched.Set($0,$1)"] ∧
+    calls_flushkv_batchedMutations_Delete = ["b.batched.Delete($0)"] ∧
+    calls_flushkv_batchedMutations_Cancel = ["b.batched.Cancel()"] ∧
+    calls_flushkv_batchedMutations_Commit = ["b.batched.Commit()", "flushAfterMutation(b.store)"] := by
+  refine ⟨rfl, rfl, rfl, rfl, rfl, rfl, rfl, rfl, rfl, rfl, rfl, rfl, rfl, rfl, rfl, rfl, rfl, rfl, rfl, rfl⟩
+
+/-- `kvstore/debug`: the eight methods with a command constant test `HasBits(<their own constant>)`, call the callback with that constant and
+the caller's arguments (`Set`: key and value; `Clear`: none; the others: the key / prefix), then forward with the caller's arguments;
+`WithRealm`, `Realm`, `Flush`, `Close`, `Batched`, batch `Cancel` / `Commit` forward silently; the batch's `Set` / `Delete` report like the store's. -/
+theorem C04_calls_debug :
+    calls_debug_New = [] ∧
+    calls_debug_debugStore_WithRealm = ["s.underlying.WithRealm($0)"] ∧
+    calls_debug_debugStore_WithExtendedRealm = ["s.WithRealm(byteutils.ConcatBytes(s.Realm(),$0))", "byteutils.ConcatBytes(s.Realm(),$0)", "s.Realm()"] ∧
+    calls_debug_debugStore_Realm = ["s.underlying.Realm()"] ∧
+    calls_debug_debugStore_Iterate = ["s.accessCallbackCommandsFilter.HasBits(IterateCommand)", "s.accessCallback(IterateCommand,$0)", "s.underlying.Iterate($0,$1,$2...)"] ∧
+    calls_debug_debugStore_IterateKeys = ["s.accessCallbackCommandsFilter.HasBits(IterateKeysCommand)", "s.accessCallback(IterateKeysCommand,$0)", "s.underlying.IterateKeys($0,$1,$2...)"] ∧
+    calls_debug_debugStore_Clear = ["s.accessCallbackCommandsFilter.HasBits(ClearCommand)", "s.accessCallback(ClearCommand)", "s.underlying.Clear()"] ∧
+    calls_debug_debugStore_Get = ["s.accessCallbackCommandsFilter.HasBits(GetCommand)", "s.accessCallback(GetCommand,$0)", "s.underlying.Get($0)"] ∧
+    calls_debug_debugStore_Set = ["s.accessCallbackCommandsFilter.HasBits(SetCommand)", "s.accessCallback(SetCommand,$0,$1)", "s.underlying.Set($0,$1)"] ∧
+    calls_debug_debugStore_Has = ["s.accessCallbackCommandsFilter.HasBits(HasCommand)", "s.accessCallback(HasCommand,$0)", "s.underlying.Has($0)"] ∧
+    calls_debug_debugStore_Delete = ["s.accessCallbackCommandsFilter.HasBits(DeleteCommand)", "s.accessCallback(DeleteCommand,$0)", "s.underlying.Delete($0)"] ∧
+    calls_debug_debugStore_DeletePrefix = ["s.accessCallbackCommandsFilter.HasBits(DeletePrefixCommand)", "s.accessCallback(DeletePrefixCommand,$0)", "s.underlying.DeletePrefix($0)"] ∧
+    calls_debug_debugStore_Flush = ["s.underlying.Flush()"] ∧
+    calls_debug_debugStore_Close = ["s.underlying.Close()"] ∧
+    calls_debug_debugStore_Batched = ["s.underlying.Batched()"] ∧
+    calls_debug_batchedMutations_Set = ["b.accessCallbackCommandsFilter.HasBits(SetCommand)", "b.accessCallback(SetCommand,$0,$1)", "b.underlying.Set($0,$1)"] ∧
+    calls_debug_batchedMutations_Delete = ["b.accessCallbackCommandsFilter.HasBits(DeleteCommand)", "b.accessCallback(DeleteCommand,$0)", "b.underlying.Delete($0)"] ∧
+    calls_debug_batchedMutations_Cancel = ["b.underlying.Cancel()"] ∧
+    calls_debug_batchedMutations_Commit = ["b.underlying.Commit()"] := by
+  refine ⟨rfl, rfl, rfl, rfl, rfl, rfl, rfl, rfl, rfl, rfl, rfl, rfl, rfl, rfl, rfl, rfl, rfl, rfl, rfl⟩
+
+/-- `kvstore.Copy` / `CopyBatched` / `GetIterDirection`, `utils`: `Copy` = `source.Iterate(EmptyPrefix, …)` with `target.Set` per entry, then
+`target.Flush()`; `CopyBatched` = `target.Batched()`, `source.Iterate` with batch `Set` (+ `Commit` and a fresh `Batched()` at the batch size),
+`Cancel` on the two error paths, final `Commit`, `Flush`; `SortSlice` sorts by `sort.StringSlice` or its `sort.Reverse`. -/
+theorem C04_calls_kvstore_utils :
+    calls_kvstore_GetIterDirection = ["panic(fmt.Sprintf(\"unknowniterationdirection:%d\",$0[0]))", "fmt.Sprintf(\"unknowniterationdirection:%d\",$0[0])"] ∧
+    calls_kvstore_Copy = ["$0.Iterate(EmptyPrefix,func)", "$1.Set(key,value)", "$1.Flush()"] ∧
+    calls_kvstore_CopyBatched = ["$1.Batched()", "$0.Iterate(EmptyPrefix,func)", "batchedMutation.Set(key,value)", "batchedMutation.Commit()", "$1.Batched()", "batchedMutation.Cancel()", "batchedMutation.Cancel()", "batchedMutation.Commit()", "$1.Flush()"] ∧
+    calls_utils_CopyBytes = ["copy(cpy,$0)"] ∧
+    calls_utils_KeyPrefixUpperBound = ["copy(end,$0)"] ∧
+    calls_utils_SortSlice = ["kvstore.GetIterDirection($1...)", "sort.Sort(sort.StringSlice($0))", "sort.StringSlice($0)", "sort.Sort(sort.Reverse(sort.StringSlice($0)))", "sort.Reverse(sort.StringSlice($0))", "sort.StringSlice($0)"] := by
+  refine ⟨rfl, rfl, rfl, rfl, rfl, rfl⟩
+
+/-- The declared types: the stores' and batches' fields (one mutex, one shared map, one shared `closed` flag, one realm; the
+batch's two operation maps), the wrappers' single wrapped store, and the byte-sized `IterDirection` / `Command` / `BitMask`. -/
+theorem C04_skeleton_types :
+    skel_type_mapDB = ["struct", "embedded sync.RWMutex", "m *syncedKVMap", "closed *atomic.Bool", "realm []byte"] ∧
+    skel_type_batchedMutations = ["struct", "embedded sync.Mutex", "kvStore *mapDB", "setOperations map[string]kvstore.Value", "deleteOperations map[string]types.Empty", "closed *atomic.Bool"] ∧
+    skel_type_syncedKVMap = ["struct", "embedded sync.RWMutex", "m map[string][]byte"] ∧
+    skel_type_flushKVStore = ["struct", "store kvstore.KVStore"] ∧
+    skel_type_debugStore = ["struct", "underlying kvstore.KVStore", "accessCallback AccessCallback", "accessCallbackCommandsFilter Command"] ∧
+    skel_type_Command = ["bitmask.BitMask"] ∧
+    skel_type_IterDirection = ["byte"] ∧
+    skel_type_BitMask = ["byte"] := by
+  refine ⟨rfl, rfl, rfl, rfl, rfl, rfl, rfl, rfl⟩
+
+end Regenerated
 
 /-! ## the hypotheses are satisfiable: concrete histories -/
 
